@@ -369,24 +369,26 @@ Definition oracle_c09 (k : acase) (o : obs) : list Z :=
       if (e <? MinExponent) || (e >? MaxExponent) then [] else
       (* more than MaxExponent (>= Precision) digits would have to be appended: a non-zero coefficient cannot fit
          (nothing that large is computed here); for a zero the limits leave the outcome open *)
-      if exp x - e >? MaxExponent then
-        (if coeff x =? 0 then []
-         else flag (form_eqb (form_of d) NaN && InvalidOperation f && negb (Underflow f) && negb (Overflow f)) O_QUANTIZE)
+      if (exp x - e >? MaxExponent) && negb (coeff x =? 0) then
+        flag (form_eqb (form_of d) NaN && InvalidOperation f && negb (Underflow f) && negb (Overflow f)) O_QUANTIZE
       else
-      let '(q, inex) := quantize_int (rounding c) x e in
+      (* a zero: coefficient 0, nothing lost, at any distance between the exponents (no power of ten is computed) *)
+      let '(q, inex) := if coeff x =? 0 then (0, false) else quantize_int (rounding c) x e in
+      (* Rounded: a digit - zero or not - of a non-zero coefficient was dropped *)
+      let rounded := (exp x <? e) && negb (coeff x =? 0) in
       let invalid := (ndigits q >? prec c) || (e <? etiny c) || (e >? emax c)
                      || (negb (q =? 0) && (e + ndigits q - 1 >? emax c)) in
       if invalid then flag (form_eqb (form_of d) NaN && InvalidOperation f) O_QUANTIZE
       else flag (is_finite d && Bool.eqb (neg d) (neg x) && (coeff d =? q) && (exp d =? e)
-                 && Bool.eqb (Inexact f) inex && (negb inex || Rounded f)
+                 && Bool.eqb (Inexact f) inex && Bool.eqb (Rounded f) rounded
                  && negb (Underflow f) && negb (Overflow f) && negb (InvalidOperation f)) O_QUANTIZE
   | ORtiv | ORtie =>
-      let '(q, inex) := quantize_int (rounding c) x 0 in
+      let '(q, inex) := if coeff x =? 0 then (0, false) else quantize_int (rounding c) x 0 in
       if ndigits q - 1 >? emax c then [] else
       flag (is_finite d && Bool.eqb (neg d) (neg x) && value_eqb (coeff d) (exp d) q 0
             && (match a_op k with
                 | ORtiv => negb (Inexact f) && negb (Rounded f)
-                | _ => Bool.eqb (Inexact f) inex && (negb inex || Rounded f)
+                | _ => Bool.eqb (Inexact f) inex && Bool.eqb (Rounded f) ((exp x <? 0) && negb (coeff x =? 0))
                 end)) O_RTI
   | OCeil | OFloor =>
       let mode := match a_op k with OCeil => RCeiling | _ => RFloor end in
@@ -511,7 +513,9 @@ Definition oracle_c15_ctx (k : acase) (o : obs) : list Z :=
   | OCmp =>
       let x := a_x k in
       let y := eff_y k in
-      if is_nan x || is_nan y || system_err (o_err o) || negb (wf_dec x && wf_dec y) then [] else
+      if is_nan x || is_nan y || negb (wf_dec x && wf_dec y) then [] else
+      (* a comparison aligns nothing: there is no exponent limit to exceed between two well-formed decimals *)
+      if system_err (o_err o) then [O_CMP] else
       let v := exact_cmp x y in
       flag (is_finite (o_dec o) && (exp (o_dec o) =? 0) && (coeff (o_dec o) =? Z.abs v)
             && ((v =? 0) || Bool.eqb (neg (o_dec o)) (v <? 0))) O_CMP
